@@ -28,11 +28,15 @@ func init() {
 					return true
 				})
 			}
+			whole := reach("client/request.go", fd)
+			if fd.Recv != nil && len(fd.Recv.List) > 0 && exprString(fd.Recv.List[0].Type) == "*defaultRouter" {
+				whole = reach("middleware/router.go", fd)
+			}
 			if rangeField == "" {
-				collect(fd.Body)
+				collect(whole)
 				return out
 			}
-			ast.Inspect(fd.Body, func(n ast.Node) bool {
+			ast.Inspect(whole, func(n ast.Node) bool {
 				if rs, ok := n.(*ast.RangeStmt); ok {
 					if se, ok := rs.X.(*ast.SelectorExpr); ok && se.Sel.Name == rangeField {
 						collect(rs.Body)
